@@ -820,8 +820,10 @@ async fn pause<T>(stream: &mut T, tokens: Vec<&str>) -> Result<(), Error>
 where
     T: tokio::io::AsyncWrite + std::marker::Unpin,
 {
-    let parts: Vec<&str> = match tokens.len() == 2 {
-        true => tokens[1].split(',').map(|part| part.trim()).collect(),
+    // Everything after the command is its argument: `db, user` arrives split at the blank.
+    let argument = tokens[1..].join(" ");
+    let parts: Vec<&str> = match tokens.len() > 1 {
+        true => argument.split(',').map(|part| part.trim()).collect(),
         false => Vec::new(),
     };
 
@@ -883,8 +885,10 @@ async fn resume<T>(stream: &mut T, tokens: Vec<&str>) -> Result<(), Error>
 where
     T: tokio::io::AsyncWrite + std::marker::Unpin,
 {
-    let parts: Vec<&str> = match tokens.len() == 2 {
-        true => tokens[1].split(',').map(|part| part.trim()).collect(),
+    // Everything after the command is its argument: `db, user` arrives split at the blank.
+    let argument = tokens[1..].join(" ");
+    let parts: Vec<&str> = match tokens.len() > 1 {
+        true => argument.split(',').map(|part| part.trim()).collect(),
         false => Vec::new(),
     };
 
